@@ -63,8 +63,9 @@ class GenericStatementSinkAdapter(Adapter):
         return Literal(lex, language, datatype)
 
     @override
-    def namespace_declaration(self, name: str, iri: str) -> Prefix:
-        return Prefix(name, self.iri(iri))
+    def namespace_declaration(self, name: str, iri: str | IRI) -> Prefix:
+        # the decoder hands over the IRI already decoded by `self.iri`
+        return Prefix(name, iri if isinstance(iri, IRI) else self.iri(iri))
 
     @override
     def quoted_triple(self, terms: Iterable[Any]) -> Triple:
